@@ -560,6 +560,61 @@ example : trimValue [.normal 'a', .normal '*'] .prefix .longest "abab".toList = 
     trimValue [.normal 'a', .normal '*'] .prefix .shortest "abab".toList = "bab".toList ∧
     trimValue [.normal '*', .normal 'b'] .suffix .shortest "abab".toList = "aba".toList := by decide
 
+/-! ## `${p=w}` / `${p:=w}` assign to the parameter -/
+
+/-- ★ "The expansion of word shall be assigned to parameter" (XCU 2.6.2): when `${name=w}` /
+    `${name:=w}` finds the variable vacant, the expansion succeeds with the quote-removed value of
+    the word, and from then on that value is what `name` expands to — in the context where the
+    expansion happened and, provided no function call in progress has declared `name` local, in
+    EVERY context afterwards: after the running functions return (`popCtx`), in later calls, at top
+    level (`ctxs'` is any stack of function contexts that do not declare `name`).  The value goes to
+    the global variable, never into the context of the function call in progress. -/
+theorem assign_switch_effect (env env1 : Env) (ws : Bool) (name : String) (cond : SwCond) (w : Word)
+    (ph : Phrase) (vac : Vacancy)
+    (hd : switchDecision .assign (ValueCondition.with_ cond (Vacancy.of (env.getValue name))) = .assignWord vac)
+    (hw : expandWord env ws w = (env1, .ok ph))
+    (hro : ∀ v, env1.getVar name = some v → v.readOnly = false) :
+    ∃ env2,
+      expandParam env ws (.var name) (env.getValue name) (.switch cond .assign w)
+        = (env2, .ok (.field (toField (removeQuotesAndStrip ((reattribute ph).ifsJoin env1))))) ∧
+      env2.getValue name = some (.scalar (removeQuotesAndStrip ((reattribute ph).ifsJoin env1))) ∧
+      ((∀ c ∈ env1.ctxs, c.lookup name = none) →
+        ∀ ctxs', (∀ c ∈ ctxs', c.lookup name = none) →
+          ({ env2 with ctxs := ctxs' }).getValue name
+            = some (.scalar (removeQuotesAndStrip ((reattribute ph).ifsJoin env1)))) := by
+  have hassign : ∃ env2, env1.assign name (removeQuotesAndStrip ((reattribute ph).ifsJoin env1)) = some env2 := by
+    unfold Env.assign
+    cases hg : env1.getVar name with
+    | none => exact ⟨_, rfl⟩
+    | some v =>
+      have := hro v hg
+      simp only [this, Bool.false_eq_true, if_false]
+      split <;> exact ⟨_, rfl⟩
+  obtain ⟨env2, h2⟩ := hassign
+  refine ⟨env2, ?_, assign_getValue _ _ _ _ h2, ?_⟩
+  · simp only [expandParam, hd, hw, h2]
+  · intro hnl ctxs' hnl'
+    obtain ⟨_, hv⟩ := assign_global _ _ _ _ h2 hnl
+    rw [getValue_global _ _ (by simpa using hnl')]
+    exact hv
+
+/-- the history of the property: inside a function call (no locals) `${u=q}` with `u` unset, then the
+    return, then `$u` at top level gives `q` -/
+example :
+    let env : Env := { vars := [], pos := [], nounset := true, exitStatus := 0, arg0 := [], ctxs := [[]] }
+    let r := expandWordMultiple env (.cons (.unq (.param (.var "u") (.switch .unset .assign (.cons (.unq (.lit 'q')) .nil)))) .nil)
+    (expandWordMultiple r.1.popCtx (.cons (.unq (.param (.var "u") .none)) .nil)).2 = .ok [['q']] := by
+  rfl
+
+/-- a local declared by the function in progress receives the value instead, and the global stays
+    as it was: after the return `u` is unset again -/
+example :
+    let env : Env := { vars := [], pos := [], nounset := false, exitStatus := 0, arg0 := [],
+                       ctxs := [[("u", { value := none, readOnly := false })]] }
+    let r := expandWordMultiple env (.cons (.unq (.param (.var "u") (.switch .unset .assign (.cons (.unq (.lit 'q')) .nil)))) .nil)
+    r.2 = .ok [['q']] ∧ r.1.getValue "u" = some (.scalar ['q']) ∧ r.1.popCtx.getValue "u" = none := by
+  refine ⟨rfl, rfl, rfl⟩
+
 /-! ## `nounset` exactly where POSIX says -/
 
 /-- which parameters can be unset at all: a variable without value, a positional parameter beyond
